@@ -67,7 +67,7 @@ Proof.
   - rewrite Go. cbn. exact Ek1.
   - rewrite Go. cbn. exact Ei1.
   - rewrite Go. exact Hb.
-  - intros _. rewrite Go. cbn. exact Eo1.
+  - rewrite Go. cbn. exact Eo1.
   - intros x Hx Hc Ek Ei _.
     assert (Hx0 : live s [] x).
     { destruct Hx as [[]|[Hx|(k' & a & Hx)]]; [right; left; rewrite <- Esl1; exact Hx|right; right; exists k', a].
